@@ -1,2 +1,108 @@
-(* C08 property theorems. Nothing but statements closed by [exact]. *)
-From OIDC Require Import Lib C08_OP C08_spec.
+(* C08 property theorems. Nothing but statements closed by [exact].
+   Vocabulary: C08_OP.v (state machine of both routers over the refstore contract),
+   C08_spec.v (ground truth about presented strings: as_access / denotes / subj_live;
+   the reference monitor spec).  [live_in g n tr]: the storage g holds access token n
+   with record tr and it is not expired. *)
+From OIDC Require Import Lib C08_OP C08_spec C08_proofs.
+
+(* The reference monitor (property predicate) accepts every run of the model: all client
+   tables, all histories on both routers - outside the input class of the recorded finding
+   Fxx-C08-1 (a provider-signed JWT presented as the other token kind in a token exchange). *)
+Theorem C08_all_histories_partial : forall i : input, unconfused i = true -> spec i (model i) = true.
+Proof. exact spec_model_partial. Qed.
+Print Assumptions C08_all_histories_partial.
+
+(* ... and without that guard the statement is false (a revoked JWT access token declared as
+   id_token is accepted as exchange subject). *)
+Theorem C08_all_histories_refuted : exists i : input, spec i (model i) = false.
+Proof. exact spec_model_refuted. Qed.
+Print Assumptions C08_all_histories_refuted.
+
+(* UserInfo returns claims only for a string that IS a live access token of the storage
+   (whatever a forged string decrypts to), and the subject is that token's. *)
+Theorem C08_userinfo_live : forall r g t sub, userinfo r g t = OInfo sub ->
+  exists n tr, as_access t = AT n /\ live_in g n tr /\ (sub = tr_sub tr \/ sub = "").
+Proof. exact userinfo_live. Qed.
+Print Assumptions C08_userinfo_live.
+
+(* active:true only for a live token, to a caller the storage authenticated and that is in
+   the token's audience; the answer describes that token. *)
+Theorem C08_introspect_live : forall cl r g c t sub client sc b,
+  introspect cl r g c t = OIntro true sub client sc b ->
+  authenticated cl c = true /\
+  exists n tr, as_access t = AT n /\ live_in g n tr /\ string_in (cred_id c) (tr_aud tr) = true /\
+               sub = tr_sub tr /\ client = tr_client tr /\ sc = tr_scopes tr.
+Proof. exact introspect_live. Qed.
+Print Assumptions C08_introspect_live.
+
+Theorem C08_inactive_discloses_nothing : forall cl r g c t sub client sc b,
+  introspect cl r g c t = OIntro false sub client sc b -> sub = "" /\ client = "" /\ sc = [] /\ b = true.
+Proof. exact inactive_discloses_nothing. Qed.
+Print Assumptions C08_inactive_discloses_nothing.
+
+(* token exchange succeeds only with a live subject token of the declared type and, if an
+   actor token is given, a live actor token *)
+Theorem C08_exchange_live_partial : forall cl r s c subj styp actor req scopes aud s' i x rt lv sc sto,
+  op_unconfused (Exchange r c subj styp actor req scopes aud) = true ->
+  exchange cl r s c subj styp actor req scopes aud = (s', OExch i x rt lv sc sto) ->
+  subj_live (fst s) styp subj = true /\ actor_live (fst s) actor = true.
+Proof. exact exchange_live. Qed.
+Print Assumptions C08_exchange_live_partial.
+
+Theorem C08_exchange_live_refuted :
+  exists cl s r c subj styp actor req scopes aud,
+    (exists s' i x rt lv sc sto, exchange cl r s c subj styp actor req scopes aud = (s', OExch i x rt lv sc sto)) /\
+    subj_live (fst s) styp subj = false.
+Proof. exact exchange_live_refuted. Qed.
+Print Assumptions C08_exchange_live_refuted.
+
+(* a token that is not live in the storage is refused at all three endpoints, on both routers *)
+Theorem C08_dead_token_refused : forall cl g t n,
+  as_access t = AT n -> (forall tr, ~ live_in g n tr) ->
+  (forall r sub, userinfo r g t <> OInfo sub) /\
+  (forall r c sub client sc b, introspect cl r g c t <> OIntro true sub client sc b) /\
+  (forall r s c actor req scopes aud s' i x rt lv sc sto, fst s = g ->
+     exchange cl r s c t TAccess actor req scopes aud <> (s', OExch i x rt lv sc sto)).
+Proof. exact dead_token_refused. Qed.
+Print Assumptions C08_dead_token_refused.
+
+(* from then on: once a revocation of token n answered 200, no later state of any
+   continuation of the history holds n (so, by C08_dead_token_refused, it is refused everywhere) *)
+Theorem C08_revoke_effective : forall cl pre r c t h post n,
+  let s0 := state_after cl init pre in
+  snd (step cl s0 (Revoke r c t h)) = OOk -> denotes t = AT n ->
+  find_tok n (toks (fst s0)) <> None ->
+  find_tok n (toks (fst (state_after cl init (pre ++ Revoke r c t h :: post)))) = None.
+Proof. exact revoke_effective. Qed.
+Print Assumptions C08_revoke_effective.
+
+(* after an accepted end_session for (user, client), any token of that user and client in a
+   later state was minted after the logout *)
+Theorem C08_logout_effective : forall cl pre r hint cid post u k n tr,
+  let s0 := state_after cl init pre in
+  snd (step cl s0 (EndSession r hint cid)) = ORedirect -> session_of hint cid = Some (u, k) ->
+  find_tok n (toks (fst (state_after cl init (pre ++ EndSession r hint cid :: post)))) = Some tr ->
+  tr_client tr = k -> tr_sub tr = u -> snd s0 < n.
+Proof. exact logout_effective. Qed.
+Print Assumptions C08_logout_effective.
+
+(* every token of every reachable storage was minted by an operation of the history *)
+Theorem C08_stored_token_was_issued : forall cl ops s m tr,
+  List.In (m, tr) (toks (fst (state_after cl s ops))) ->
+  List.In (m, tr) (toks (fst s)) \/
+  exists pre o post, ops = pre ++ o :: post /\
+    snd (state_after cl s pre) < m /\ m <= snd (fst (step cl (state_after cl s pre) o)).
+Proof. exact stored_token_was_issued. Qed.
+Print Assumptions C08_stored_token_was_issued.
+
+(* another client's live token: the request is refused and nothing changes *)
+Theorem C08_foreign_revoke_refused : forall cl r g c t h g' x,
+  revoke cl r g c t h = (g', x) -> foreign_to g (denotes t) (cred_id c) = true -> g' = g /\ x <> OOk.
+Proof. exact revoke_foreign_refused. Qed.
+Print Assumptions C08_foreign_revoke_refused.
+
+(* a properly authenticated client revoking its own, an unknown or a garbage token gets 200 *)
+Theorem C08_unknown_revoke_200 : forall cl r g c t h,
+  proper cl c = true -> foreign_to g (denotes t) (cred_id c) = false -> snd (revoke cl r g c t h) = OOk.
+Proof. exact revoke_unknown_200. Qed.
+Print Assumptions C08_unknown_revoke_200.
